@@ -22,6 +22,7 @@
 #include "errmsg.h"
 #include "fileformat.h"
 #include "strutil.h"
+#include "verif_hooks.h"
 #include "version.h"
 
 #include <string.h>
@@ -55,12 +56,12 @@ void DreheCodes(void) {
 
     switch (ActListGran) {
     case 2:
-        for (z = 0; z < l >> 1; z++) {
+        for (z = 0; z < l >> 1; z++) VERIF_LOOP(asmcode_turn2) {
             WAsmCode[z] = ((WAsmCode[z] & 0xff) << 8) + ((WAsmCode[z] & 0xff00) >> 8);
         }
         break;
     case 4:
-        for (z = 0; z < l >> 2; z++) {
+        for (z = 0; z < l >> 2; z++) VERIF_LOOP(asmcode_turn4) {
             LongWord Dest;
             int      z2;
 
